@@ -47,6 +47,10 @@ def _normalise(node):
             v = _rust_str(node["dbg"])
             if v is not None:
                 node["str"] = v
+        if node.get("k") == "const" and "dbg" in node and "int" not in node:
+            m = re.match(r"^(-?\d+)_([ui](8|16|32|64|128|size))$", node["dbg"])
+            if m:
+                node["int"] = int(m.group(1))
         if node.get("k") == "const" and "dbg" in node and "int" not in node and node.get("ty") == "char":
             d = node["dbg"]
             if len(d) >= 3 and d[0] == "'" and d[-1] == "'":
